@@ -2672,6 +2672,24 @@ class Interferometer(Decomposition):
             parameters, global_phase = dec.sun_compact(self.p[0], rtol=tol, atol=tol)
             cmds = _sun_compact_cmds(reg, parameters, global_phase)
 
+        elif mesh == "triangular" and (not self.identity or not drop_identity):
+            # U = T_k^-1 ... T_1^-1 D: the local phases act first, then the inverse T unitaries
+            tlist, R, _ = dec.triangular(self.p[0], tol=tol)
+
+            for n, expphi in enumerate(R):
+                q = np.log(expphi).imag if np.abs(expphi - 1) >= _decomposition_tol else 0
+                if not (drop_identity and q == 0):
+                    cmds.append(Command(Rgate(np.mod(q, 2 * np.pi)), reg[n]))
+
+            for n, m, theta, phi, _ in tlist:
+                theta = theta if np.abs(theta) >= _decomposition_tol else 0
+                phi = phi if np.abs(phi) >= _decomposition_tol else 0
+
+                if not (drop_identity and theta == 0):
+                    cmds.append(Command(BSgate(-theta, 0), (reg[n], reg[m])))
+                if not (drop_identity and phi == 0):
+                    cmds.append(Command(Rgate(-phi), reg[n]))
+
         elif not self.identity or not drop_identity:
             decomp_fn = getattr(dec, mesh)
             BS1, R, BS2 = decomp_fn(self.p[0], tol=tol)
